@@ -57,6 +57,7 @@ class Render:
         self.ivs = []  # stack of induction variable names
         self.accs = []  # stack of loop-carried i32 values (None for loops without one)
         self.prev = None
+        self.last_state = {}  # accelerator -> SSA name of the setup result that is certainly still in effect here
 
     def fresh(self, p="v"):
         self.n += 1
@@ -108,7 +109,55 @@ class Render:
             return r
         raise ValueError(v)
 
+    def _touched(self, body):
+        """accelerators whose registers a block may change (None = all, because of a call)"""
+        out = set()
+        for b in body or ():
+            if b[0] == "cfg":
+                out.add(b[1])
+            elif b[0] in ("call", "lcall"):
+                return None
+            elif b[0] in ("for", "forc"):
+                t = self._touched(b[2])
+                if t is None:
+                    return None
+                out |= t
+            elif b[0] == "if":
+                for blk in (b[2], b[3]):
+                    t = self._touched(blk)
+                    if t is None:
+                        return None
+                    out |= t
+        return out
+
+    def _forget(self, touched):
+        if touched is None:
+            self.last_state = {}
+        else:
+            for a in touched:
+                self.last_state.pop(a, None)
+
     def stmt(self, s, ind):
+        k = s[0]
+        if k in ("for", "forc"):
+            self._forget(self._touched(s[2]))  # at the loop head on iteration >= 2
+            saved = dict(self.last_state)
+            self._stmt(s, ind)
+            self.last_state = saved
+            self._forget(self._touched(s[2]))
+            return
+        if k == "if":
+            saved = dict(self.last_state)
+            self._stmt(s, ind)
+            self.last_state = saved
+            self._forget(self._touched(s[2]))
+            self._forget(self._touched(s[3]))
+            return
+        if k in ("call", "lcall"):
+            self.last_state = {}
+        self._stmt(s, ind)
+
+    def _stmt(self, s, ind):
         k = s[0]
         if k == "cfg":
             _, acc, pidx = s
@@ -120,6 +169,21 @@ class Render:
             st = self.fresh("st")
             params = ", ".join(f'"{f}" = {v} : i32' for f, v in zip(d["fields"], vals))
             self.emit(f'{st} = accfg.setup "{acc}" to ({params}) : !accfg.state<"{acc}">', ind)
+            self.last_state[acc] = st
+            tk = self.fresh("tk")
+            lv = ["%l"] if len(d["launch"]) == 1 else ["%a3", "%a2"]
+            lt = ["i5"] if len(d["launch"]) == 1 else ["i32", "i32"]
+            ln = ", ".join(f'"{x}"' for x in d["launch"])
+            self.emit(f'{tk} = "accfg.launch"({", ".join(lv)}, {st}) <{{param_names = [{ln}], accelerator = "{acc}"}}> : ({", ".join(lt)}, !accfg.state<"{acc}">) -> !accfg.token<"{acc}">', ind)
+            self.emit(f'"accfg.await"({tk}) : (!accfg.token<"{acc}">) -> ()', ind)
+        elif k == "rl":
+            # launch again with the configuration in effect (no setup of its own): only where a dominating setup of this
+            # accelerator is certainly still in effect (nothing that may change the registers since, on any path)
+            acc = s[1]
+            st = self.last_state.get(acc)
+            if st is None:
+                return
+            d = ACCS[acc]
             tk = self.fresh("tk")
             lv = ["%l"] if len(d["launch"]) == 1 else ["%a3", "%a2"]
             lt = ["i5"] if len(d["launch"]) == 1 else ["i32", "i32"]
@@ -161,11 +225,13 @@ class Render:
             self.emit("}", ind)
         elif k == "if":
             _, j, tb, eb = s
+            before_if = dict(self.last_state)
             self.emit(f"scf.if %c{j}b {{", ind)
             for b in tb:
                 self.stmt(b, ind + 1)
             if eb is not None:
                 self.emit("} else {", ind)
+                self.last_state = dict(before_if)
                 for b in eb:
                     self.stmt(b, ind + 1)
             self.emit("}", ind)
@@ -212,7 +278,7 @@ def render(prog, decls=True):
 # ------------------------------------------------------------------ enumeration
 
 
-def atoms(accs, in_loop, pal_limit):
+def atoms(accs, in_loop, pal_limit, relaunch=False):
     out = []
     for acc in accs:
         for p in range(min(pal_limit, len(PALETTE[acc]))):
@@ -221,6 +287,8 @@ def atoms(accs, in_loop, pal_limit):
                 continue
             out.append(("cfg", acc, p))
     out += [("call",), ("callnone",), ("lcall",)]
+    if relaunch:
+        out += [("rl", acc) for acc in accs]
     return out
 
 
@@ -294,9 +362,9 @@ def random_prog(rnd, size, depth, accs, pal_limit, bounds_kinds, in_loop=False):
                             random_prog(rnd, inner - ts, depth - 1, accs, pal_limit, bounds_kinds, in_loop)))
             left -= inner + 1
         else:
-            at = atoms(accs, in_loop, pal_limit)
+            at = atoms(accs, in_loop, pal_limit, relaunch=True)
             cfgs = [a for a in at if a[0] == "cfg"]
-            out.append(rnd.choice(cfgs) if rnd.random() < 0.75 else rnd.choice(at))
+            out.append(rnd.choice(cfgs) if rnd.random() < 0.7 else rnd.choice(at))
             left -= 1
     return tuple(out)
 
@@ -321,6 +389,16 @@ def program_set(tier, seed, want_calls=True):
             if size >= 3 and count_cfg(p) < 2:
                 continue
             add(p)
+    # a launch that re-uses the configuration in effect (no setup of its own), nested in a conditional or loop between
+    # two configurations: exhaustive over the palette
+    for p1 in range(4):
+        for p2 in range(4):
+            rl = (("rl", "acc1"),)
+            add((("cfg", "acc1", p1), ("if", 0, rl, None), ("cfg", "acc1", p2)))
+            add((("cfg", "acc1", p1), ("if", 0, rl, (("cfg", "acc1", p2),)), ("cfg", "acc1", p2)))
+            add((("cfg", "acc1", p1), ("for", "args", rl), ("cfg", "acc1", p2)))
+            add((("for", "args", (("cfg", "acc1", p1), ("if", 1, rl, None), ("cfg", "acc1", p2))),))
+            add((("cfg", "acc1", p1), ("rl", "acc1"), ("cfg", "acc1", p2), ("rl", "acc1")))
     n_exh = len(progs)
     # sampled: two accelerators, bigger, deeper
     target = 500 if quick else 4000
